@@ -21,7 +21,9 @@
 //!            whose probe answers `compiler_id=<kind>` / `compiler_version=<version>`; then the real parse_arguments
 //!            and generate_hash_key run for `-c foo.c -o foo.o` with `pp_text` as the preprocessor's output: the key
 //!            printed is what hash_key returns with the plusplus() of the detected compiler
-//!   flow     case `( (label..) ( step ... ) )`   step = ( exe kind version ((k v)..) ((name #content mtime_secs)..) ppmode [(arg..)] )
+//!   flow     case `( (label..) ( step ... ) )`   step = ( exe kind version ((k v)..) ((name #content mtime_secs [repeat])..) ppmode [(arg..) [input]] )
+//!            (a file's contents are `content` repeated `repeat` times; `input` is the source path of the command line,
+//!             default foo.c; the directory also holds b/x.c, c/x.c (regular files) and a/x.c -> ../b/x.c (a symbolic link))
 //!            -> `( ( #result-key #manifest-key|none ) | undetected | cannot_cache | err | panic ... )`: the steps of a case
 //!            run one after the other IN THIS PROCESS and in ONE directory: real get_compiler_info (mock probe), real
 //!            parse_arguments for `-c foo.c -o foo.o -fsanitize-blacklist=<name>...` and real generate_hash_key with the
@@ -329,11 +331,21 @@ fn driver_key(rt: &tokio::runtime::Runtime, storage: &Arc<dyn Storage>, root: &P
         probe.extend_from_slice(v.bytes());
         probe.push(b'\n');
     }
-    creator.lock().unwrap().next_command_spawns(Ok(MockChild::new(exit_ok(), probe, "")));
     let pool = rt.handle().clone();
-    let compiler = match rt.block_on(get_compiler_info(creator.clone(), &exe, &cwd, &[], &[], &pool, None)) {
-        Ok((c, _)) => c,
-        Err(_) => return Sx::sym("undetected"),
+    // (a second attempt: detection touches the file system - temp file, executable digest - and must not turn a
+    //  transient I/O failure on a loaded machine into an observation about the compiler)
+    let mut detected = None;
+    for _ in 0..2 {
+        creator.lock().unwrap().children.clear();
+        creator.lock().unwrap().next_command_spawns(Ok(MockChild::new(exit_ok(), probe.clone(), "")));
+        if let Ok((c, _)) = rt.block_on(get_compiler_info(creator.clone(), &exe, &cwd, &[], &[], &pool, None)) {
+            detected = Some(c);
+            break;
+        }
+    }
+    let compiler = match detected {
+        Some(c) => c,
+        None => return Sx::sym("undetected"),
     };
     creator.lock().unwrap().children.clear();
     creator.lock().unwrap().next_command_spawns(Ok(MockChild::new(exit_ok(), pp, "")));
@@ -412,10 +424,18 @@ fn flow_step(rt: &tokio::runtime::Runtime, storage: &Arc<RecStorage>, dir: &Path
     let old = FileTime::from_unix_time(1_600_000_000, 0);
     let _ = set_file_mtime(&exe, old);
     let _ = set_file_mtime(cwd.join("foo.c"), old);
-    let mut args: Vec<OsString> = vec!["-c".into(), "foo.c".into(), "-o".into(), "foo.o".into()];
+    for d in ["a", "b", "c"] {
+        let _ = std::fs::create_dir_all(cwd.join(d));
+    }
+    let _ = std::fs::write(cwd.join("b/x.c"), b"int x;\n");
+    let _ = std::fs::write(cwd.join("c/x.c"), b"int x;\n");
+    let _ = std::os::unix::fs::symlink("../b/x.c", cwd.join("a/x.c"));
+    let input: OsString = if st.arg(7).bytes().is_empty() { "foo.c".into() } else { os(st.arg(7)) };
+    let mut args: Vec<OsString> = vec!["-c".into(), input, "-o".into(), "foo.o".into()];
     for f in st.arg(4).list() {
         let p = cwd.join(OsStr::from_bytes(f.arg(0).bytes()));
-        if std::fs::write(&p, f.arg(1).bytes()).is_err()
+        let rep = f.arg(3).u64().max(1) as usize;
+        if std::fs::write(&p, f.arg(1).bytes().repeat(rep)).is_err()
             || set_file_mtime(&p, FileTime::from_unix_time(f.arg(2).u64() as i64, 0)).is_err()
         {
             return Sx::sym("err");
@@ -436,11 +456,19 @@ fn flow_step(rt: &tokio::runtime::Runtime, storage: &Arc<RecStorage>, dir: &Path
         probe.extend_from_slice(v.bytes());
         probe.push(b'\n');
     }
-    creator.lock().unwrap().next_command_spawns(Ok(MockChild::new(exit_ok(), probe, "")));
     let pool = rt.handle().clone();
-    let compiler = match rt.block_on(get_compiler_info(creator.clone(), &exe, &cwd, &args, &env, &pool, None)) {
-        Ok((c, _)) => c,
-        Err(_) => return Sx::sym("undetected"),
+    let mut detected = None;
+    for _ in 0..2 {
+        creator.lock().unwrap().children.clear();
+        creator.lock().unwrap().next_command_spawns(Ok(MockChild::new(exit_ok(), probe.clone(), "")));
+        if let Ok((c, _)) = rt.block_on(get_compiler_info(creator.clone(), &exe, &cwd, &args, &env, &pool, None)) {
+            detected = Some(c);
+            break;
+        }
+    }
+    let compiler = match detected {
+        Some(c) => c,
+        None => return Sx::sym("undetected"),
     };
     creator.lock().unwrap().children.clear();
     creator
